@@ -126,6 +126,8 @@ func checkC05(p *Prog, r *Report) {
 	r.Extra["stores_in_execution_reach"] = nExec
 	r.Extra["stores_compile_only"] = nCompile
 
+	rulePoolDiscipline(p, a, r, "R-C05-POOL")
+
 	// the cache lock discipline is a C05 condition too
 	r.Begin("R-C05-CACHE", "cache map accessed only under its mutex (same rule as R-C20-LOCK)", 4)
 	if ca := resolveCacheAnchors(p, a, r); ca != nil {
